@@ -2,6 +2,7 @@ package rules
 
 import (
 	"fmt"
+	"go/token"
 	"go/types"
 	"strings"
 
@@ -88,12 +89,13 @@ func fieldInvoke(ins ssa.Instruction, named *types.Named, field, name string) *s
 
 func runC10(c *core.Ctx) {
 	runFixtures(c, "drop")
-	c.Explain("Structural clauses of C10 decided from source (thin: byte/metadata equality with the source is behaviour): (R10.1) in the cache FS's Open the source is opened for content only under the ErrNotExist edge of the cache look-up of the same name, every other look-up error returns; (R10.2) on every path after a successful fill the returned handle was rewound with a successful SeekFile(f, 0, SeekStart) or is re-opened from the cache; (R10.3) the memoised FileInfo stored in the info table is the result of Stat() on a handle obtained from the source, stored only on its nil-error edge, under the name it was asked for; (R10.4) the cache's directory handle lists through the source file system and stats through the same memoised Stat. NOT claimed: that returned names, kinds, sizes, modes and bytes equal the source's; 'without reading the source again' beyond the ordering; the RetainData policy.")
+	c.Explain("Structural clauses of C10 decided from source (thin: byte/metadata equality with the source is behaviour): (R10.1) in the cache FS's Open the source is opened for content only under the ErrNotExist edge of the cache look-up of the same name, every other look-up error returns; (R10.2) on every path after a successful fill the returned handle was rewound with a successful SeekFile(f, 0, SeekStart) or is re-opened from the cache; (R10.3) the memoised FileInfo stored in the info table is the result of Stat() on a handle obtained from the source, stored only on its nil-error edge, under the name it was asked for; (R10.4) the cache's directory handle lists through the source file system and stats through the same memoised Stat. (R10.5) the fill removes the cache file on every failing exit after creating it and reads the Close error of the file it wrote (a store that commits on Close can fail there) — otherwise a later Open is served a truncated copy that differs from the source. NOT claimed: that returned names, kinds, sizes, modes and bytes equal the source's; 'without reading the source again' beyond the ordering; the RetainData policy.")
 	c.Assume("A1: FS contract of source and cache file systems")
 	c.RuleDoc("R10.1", "cache look-up before source; only ErrNotExist falls through")
 	c.RuleDoc("R10.2", "handle returned after a fill starts at offset 0")
 	c.RuleDoc("R10.3", "memoised info comes from the source")
 	c.RuleDoc("R10.4", "directory handle lists the source")
+	c.RuleDoc("R10.5", "a copy that was not written and closed successfully does not stay in the cache")
 	for _, p := range c.Progs {
 		c.SetProg(p)
 		sh := findCacheShape(p)
@@ -133,7 +135,12 @@ func runC10(c *core.Ctx) {
 		r10Memo(c, p, sh)
 		// R10.4
 		r10Dir(c, p, sh)
+		// R10.5: only a complete copy is ever left in the cache (same analysis as R11.2/R11.3)
+		if sh.lockField != "" {
+			r11Fill(c, p, sh, "R10.5", "R10.5")
+		}
 	}
+	c.Floor("R10.5", 2)
 	c.Floor("R10.1", 1)
 	c.Floor("R10.2", 1)
 	c.Floor("R10.3", 1)
@@ -284,11 +291,12 @@ func r10Dir(c *core.Ctx, p *load.Program, sh *cacheShape) {
 
 func runC11(c *core.Ctx) {
 	runFixtures(c, "drop", "locks")
-	c.Explain("Structural clauses of C11 decided from source: (R11.1) in the cache FS's Open, the cache look-up, the source open and the fill run after Lock(name) on the per-path lock and before its release, Lock and Unlock use the same key, the Unlock is deferred (or on every exit), the fill function has no caller outside that region, and the per-path lock obtains the mutex of a key with one atomic LoadOrStore; (R11.2) on every path on which the cache file was created and the fill then fails, the partial file is invalidated (removed from the cache FS) before the error is returned; (R11.3) the Close error of the cache file opened for writing takes part in the fill's result. NOT claimed: interleavings of concurrent opens (only the lock discipline), a fault at every read/write index, cache stores that cannot remove files.")
+	c.Explain("Structural clauses of C11 decided from source: (R11.1) in the cache FS's Open, the cache look-up, the source open and the fill run after Lock(name) on the per-path lock and before its release, Lock and Unlock use the same key, the Unlock is deferred (or on every exit), the fill function has no caller outside that region, and the per-path lock obtains the mutex of a key with one atomic LoadOrStore; (R11.2) on every path on which the cache file was created and the fill then fails, the partial file is invalidated (removed from the cache FS) before the error is returned; (R11.3) the Close error of the cache file opened for writing takes part in the fill's result. (R11.4) the fill (and Open around it) reads no slice-typed field of the file system value: the lock held is per path, so a scratch buffer shared by all fills would be written by two fills at once. NOT claimed: interleavings of concurrent opens (only the lock discipline), a fault at every read/write index, cache stores that cannot remove files.")
 	c.Assume("A2: sync.Map.LoadOrStore is atomic; sync.Mutex semantics", "a cache store without RemoveFS cannot invalidate a partial file (stated limitation)")
 	c.RuleDoc("R11.1", "look-up + fill under the per-path lock")
 	c.RuleDoc("R11.2", "failed fill invalidates the partial cache file")
 	c.RuleDoc("R11.3", "Close error of the written cache file is not discarded")
+	c.RuleDoc("R11.4", "fills of different paths share no byte buffer")
 	for _, p := range c.Progs {
 		c.SetProg(p)
 		sh := findCacheShape(p)
@@ -379,14 +387,16 @@ func runC11(c *core.Ctx) {
 			c.Hard("anchor: pathlock.Mutex.Lock")
 		}
 		// ---- R11.2 / R11.3 in the fill function ----
-		r11Fill(c, p, sh)
+		r11Fill(c, p, sh, "R11.2", "R11.3")
+		r11NoSharedBuffer(c, p, sh)
 	}
+	c.Floor("R11.4", 1)
 	c.Floor("R11.1", 2)
 	c.Floor("R11.2", 1)
 	c.Floor("R11.3", 1)
 }
 
-func r11Fill(c *core.Ctx, p *load.Program, sh *cacheShape) {
+func r11Fill(c *core.Ctx, p *load.Program, sh *cacheShape, ruleInvalidate, ruleClose string) {
 	tk := typeKey(sh.named)
 	fn := sh.copy
 	var create *ssa.Call
@@ -438,7 +448,7 @@ func r11Fill(c *core.Ctx, p *load.Program, sh *cacheShape) {
 			}
 		},
 	})
-	c.Check(leak == "", "R11.2", tk+".fill|invalidate-on-failure", p.Pos(create.Pos()), "every failing return after the cache file was created removes it first",
+	c.Check(leak == "", ruleInvalidate, tk+".fill|invalidate-on-failure", p.Pos(create.Pos()), "every failing return after the cache file was created removes it first",
 		fmt.Sprintf("%s: after the cache file was created, the failing return at %s leaves it in the cache: the next Open finds it and serves the truncated copy", fname(fn), leak))
 	// R11.3
 	closed := false
@@ -457,7 +467,7 @@ func r11Fill(c *core.Ctx, p *load.Program, sh *cacheShape) {
 		}
 		_ = dest
 	})
-	c.Check(closed && good, "R11.3", tk+".fill|close-error-kept", p.Pos(fn.Pos()), "the written cache file's Close error is read",
+	c.Check(closed && good, ruleClose, tk+".fill|close-error-kept", p.Pos(fn.Pos()), "the written cache file's Close error is read",
 		fmt.Sprintf("%s: the Close error of the cache file opened for writing is discarded (deferred or assigned to _): a store that commits on Close can fail there and the fill still reports success", fname(fn)))
 }
 
@@ -488,4 +498,40 @@ func singleStored(v ssa.Value) ssa.Value {
 		}
 	}
 	return v
+}
+
+// r11NoSharedBuffer (R11.4): the lock that serialises fills is per path, so fills of two different names run
+// concurrently; the fill therefore uses no slice kept in the file system value (a scratch buffer shared by all
+// fills mixes the bytes of two files).
+func r11NoSharedBuffer(c *core.Ctx, p *load.Program, sh *cacheShape) {
+	for _, fn := range []*ssa.Function{sh.copy, sh.open} {
+		if fn == nil {
+			continue
+		}
+		recv := recvParam(fn)
+		key := fname(fn) + "|no-shared-buffer"
+		bad := ""
+		ssax.InstrsDeep(fn, func(f *ssa.Function, ins ssa.Instruction) {
+			u, ok := ins.(*ssa.UnOp)
+			if !ok || u.Op != token.MUL {
+				return
+			}
+			fa, ok := u.X.(*ssa.FieldAddr)
+			if !ok {
+				return
+			}
+			base := fa.X
+			if fv, ok := base.(*ssa.FreeVar); ok {
+				base = ssax.ResolveFreeVar(fv)
+			}
+			if base != ssa.Value(recv) {
+				return
+			}
+			if _, isSlice := u.Type().Underlying().(*types.Slice); isSlice && u.Referrers() != nil && len(*u.Referrers()) > 0 {
+				bad = fmt.Sprintf("%s.%s (%s) at %s", typeKey(sh.named), ssax.FieldName(fa), u.Type(), p.Pos(u.Pos()))
+			}
+		})
+		c.Check(bad == "", "R11.4", key, p.Pos(fn.Pos()), "the fill works on local buffers only",
+			fmt.Sprintf("%s uses the slice %s, which all fills share, while only the per-path lock is held: fills of two different names run concurrently and overwrite each other's bytes in it, so a cached copy can hold another file's content", fname(fn), bad))
+	}
 }
